@@ -223,30 +223,37 @@ proof { assert(self.rest() == s0.skip(k0)); if self.rest().len() > 1 { assert(se
     r.0 == (str_end(old(self).rest(), '"') is Some),                                                 //@C11,C15:terminated-flag-exact
     r.0 ==> eaten(*old(self), *final(self)) == str_end(old(self).rest(), '"')->Some_0,                //@C15,C14:string-extent
     !r.0 ==> final(self).rest().len() == 0,                                                            //@C15,C14:string-extent
+    // the consecutive-underscores flag (a lexical error for a bit string) is only raised when two adjacent underscores were read
+    r.2 ==> adj_us(old(self).rest(), eaten(*old(self), *final(self))),                            //@C15,C11:no-spurious-underscore-error
 ''', ret='r', loops={1: '''invariant
     advanced(*old(self), *self), fits(*old(self)), 0 <= count_newlines <= eaten(*old(self), *self), !terminated,
+    consecutive_underscores ==> adj_us(old(self).rest(), eaten(*old(self), *self)),
+    prev_char == '_' ==> eaten(*old(self), *self) > 0 && old(self).rest()[eaten(*old(self), *self) - 1] == '_',
     // what remains decides the outcome: the string ends where the rest of it ends
     str_end(old(self).rest(), '"') == lift(str_end(self.rest(), '"'), eaten(*old(self), *self)),
 ensures advanced(*old(self), *self), !terminated, self.rest().len() == 0, str_end(old(self).rest(), '"') is None,
 decreases self.rest().len(),'''},
                 loop_ghost='''broadcast use lex_lemmas;
 let ghost k0 = eaten(*old(self), *self); let ghost s0 = old(self).rest(); let ghost c_in = *self;
-proof { assert(self.rest() == s0.skip(k0)); if self.rest().len() > 1 { assert(self.rest().skip(1) =~= s0.skip(k0 + 1)); assert(self.rest().skip(2) =~= s0.skip(k0 + 2)); } }''', ghost=[('{', 'after', 'broadcast use lex_lemmas;'), ("let mut prev_char = '\\0';", 'after', 'proof { assert(old(self).rest().skip(0) =~= old(self).rest()); }'), ('                    return (terminated, only_ones_and_zeros, consecutive_underscores);', 'before', 'proof { lemma_advanced_rest(*old(self), *self); }')]),
+proof { assert(self.rest() == s0.skip(k0)); if self.rest().len() > 1 { assert(self.rest().skip(1) =~= s0.skip(k0 + 1)); assert(self.rest().skip(2) =~= s0.skip(k0 + 2)); } }''', ghost=[('{', 'after', 'broadcast use lex_lemmas;'), ('                        consecutive_underscores = true;', 'before', "proof { assert(s0[k0 - 2] == '_' && s0[(k0 - 2) + 1] == '_'); }"), ("let mut prev_char = '\\0';", 'after', 'proof { assert(old(self).rest().skip(0) =~= old(self).rest()); }'), ('                    return (terminated, only_ones_and_zeros, consecutive_underscores);', 'before', 'proof { lemma_advanced_rest(*old(self), *self); }')]),
         scanner('single_quoted_string', " old(self).prevc() == '\\'',", '''
     // the flag is exact: terminated iff a closing quote (not escaped) exists, and then the token ends right after it;
     // an unterminated string runs to the end of the input
     r.0 == (str_end(old(self).rest(), '\\'') is Some),                                                 //@C11,C15:terminated-flag-exact
     r.0 ==> eaten(*old(self), *final(self)) == str_end(old(self).rest(), '\\'')->Some_0,                //@C15,C14:string-extent
     !r.0 ==> final(self).rest().len() == 0,                                                            //@C15,C14:string-extent
+    r.2 ==> adj_us(old(self).rest(), eaten(*old(self), *final(self))),                                //@C15,C11:no-spurious-underscore-error
 ''', ret='r', loops={1: '''invariant
     advanced(*old(self), *self), fits(*old(self)), 0 <= count_newlines <= eaten(*old(self), *self), !terminated,
+    consecutive_underscores ==> adj_us(old(self).rest(), eaten(*old(self), *self)),
+    prev_char == '_' ==> eaten(*old(self), *self) > 0 && old(self).rest()[eaten(*old(self), *self) - 1] == '_',
     // what remains decides the outcome: the string ends where the rest of it ends
     str_end(old(self).rest(), '\\'') == lift(str_end(self.rest(), '\\''), eaten(*old(self), *self)),
 ensures advanced(*old(self), *self), !terminated, self.rest().len() == 0, str_end(old(self).rest(), '\\'') is None,
 decreases self.rest().len(),'''},
                 loop_ghost='''broadcast use lex_lemmas;
 let ghost k0 = eaten(*old(self), *self); let ghost s0 = old(self).rest(); let ghost c_in = *self;
-proof { assert(self.rest() == s0.skip(k0)); if self.rest().len() > 1 { assert(self.rest().skip(1) =~= s0.skip(k0 + 1)); assert(self.rest().skip(2) =~= s0.skip(k0 + 2)); } }''', ghost=[('{', 'after', 'broadcast use lex_lemmas;'), ("let mut prev_char = '\\0';", 'after', 'proof { assert(old(self).rest().skip(0) =~= old(self).rest()); }'), ('                    return (terminated, only_ones_and_zeros, consecutive_underscores);', 'before', 'proof { lemma_advanced_rest(*old(self), *self); }')]),
+proof { assert(self.rest() == s0.skip(k0)); if self.rest().len() > 1 { assert(self.rest().skip(1) =~= s0.skip(k0 + 1)); assert(self.rest().skip(2) =~= s0.skip(k0 + 2)); } }''', ghost=[('{', 'after', 'broadcast use lex_lemmas;'), ('                        consecutive_underscores = true;', 'before', "proof { assert(s0[k0 - 2] == '_' && s0[(k0 - 2) + 1] == '_'); }"), ("let mut prev_char = '\\0';", 'after', 'proof { assert(old(self).rest().skip(0) =~= old(self).rest()); }'), ('                    return (terminated, only_ones_and_zeros, consecutive_underscores);', 'before', 'proof { lemma_advanced_rest(*old(self), *self); }')]),
         scanner('eat_decimal_digits', *SB['eat_decimal_digits'][:2], **SB['eat_decimal_digits'][2]),
         scanner('eat_hexadecimal_digits', *SB['eat_hexadecimal_digits'][:2], **SB['eat_hexadecimal_digits'][2]),
         scanner('eat_float_exponent', *SB['eat_float_exponent'][:2], **SB['eat_float_exponent'][2]),
